@@ -49,10 +49,17 @@ func (r *Run) OnViol(props ...string) func(eng.Violation) {
 				return
 			}
 		}
+		// a violation of another property's oracle met on the way (an Open error while checking
+		// reopen equivalence, a panic, a set-up op that fails): none occurs on the unchanged tree, and
+		// on a changed tree it means the histories of this check no longer do what they are meant to -
+		// it is reported under the checked property, tagged with its origin, never dropped
 		if r.Extra["foreign_violations"] == nil {
 			r.Extra["foreign_violations"] = map[string]int{}
 		}
 		r.Extra["foreign_violations"].(map[string]int)[v.Prop]++
+		v.Tags = append(append([]string(nil), v.Tags...), "from:"+v.Prop)
+		v.Prop = r.Prop
+		r.Col.Add(v)
 	}
 }
 
